@@ -198,6 +198,7 @@ def finish(ctx, t0, level="other", explanation="", trusted=None, extra=None, out
         "not_decided": ctx.not_decided,
         "files_sha256": {os.path.relpath(p, os.path.dirname(ctx.model.root)): h for p, h in sorted(ctx.model.sha.items())},
         "discopy_imported": False,
+        "locals_renamed_back": list(getattr(ctx.model, "alpha_applied", []))[:50],
         "checker_cmd": "/venv/bin/python -m sa.check %s --tier %s" % (ctx.prop, ctx.tier),
         "trusted_base": trusted or ["CPython ast module", "the transfer functions of sa/ (Python slice/list semantics, numpy axis semantics)",
                                     "mathematical facts cited in DESIGN.md §9"],
